@@ -311,30 +311,35 @@ func ProbeFollowUps() string {
 	g, seven, big1 := secp256k1.Base(), secp256k1.NewScalar().SetUInt64(7), secp256k1.NewScalar().MinusOne()
 	eops := []struct {
 		name string
-		f    func(e *secp256k1.Element) *secp256k1.Element
+		f    func(e, o *secp256k1.Element) *secp256k1.Element
 	}{
-		{"Negate", func(e *secp256k1.Element) *secp256k1.Element { return e.Negate() }},
-		{"Double", func(e *secp256k1.Element) *secp256k1.Element { return e.Double() }},
-		{"Add(G)", func(e *secp256k1.Element) *secp256k1.Element { return e.Add(g) }},
-		{"Subtract(G)", func(e *secp256k1.Element) *secp256k1.Element { return e.Subtract(g) }},
-		{"Multiply(7)", func(e *secp256k1.Element) *secp256k1.Element { return e.Multiply(seven) }},
-		{"Multiply(n-1)", func(e *secp256k1.Element) *secp256k1.Element { return e.Multiply(big1) }},
-		{"Copy", func(e *secp256k1.Element) *secp256k1.Element { return e.Copy() }},
-		{"value-copy", func(e *secp256k1.Element) *secp256k1.Element { c := *e; return &c }},
-		{"Add(self)", func(e *secp256k1.Element) *secp256k1.Element { return e.Add(e) }},
+		{"Negate", func(e, _ *secp256k1.Element) *secp256k1.Element { return e.Negate() }},
+		{"Double", func(e, _ *secp256k1.Element) *secp256k1.Element { return e.Double() }},
+		{"Add(G)", func(e, _ *secp256k1.Element) *secp256k1.Element { return e.Add(g) }},
+		{"Subtract(G)", func(e, _ *secp256k1.Element) *secp256k1.Element { return e.Subtract(g) }},
+		{"Multiply(7)", func(e, _ *secp256k1.Element) *secp256k1.Element { return e.Multiply(seven) }},
+		{"Multiply(n-1)", func(e, _ *secp256k1.Element) *secp256k1.Element { return e.Multiply(big1) }},
+		{"Copy", func(e, _ *secp256k1.Element) *secp256k1.Element { return e.Copy() }},
+		{"value-copy", func(e, _ *secp256k1.Element) *secp256k1.Element { c := *e; return &c }},
+		{"Add(self)", func(e, _ *secp256k1.Element) *secp256k1.Element { return e.Add(e) }},
+		// o: ANOTHER object (4G) on which the same new method was called (for the twin: a fresh object of that value)
+		{"Add(other object that met the new method)", func(e, o *secp256k1.Element) *secp256k1.Element { return e.Add(o) }},
+		{"Subtract(other object that met the new method)", func(e, o *secp256k1.Element) *secp256k1.Element { return e.Subtract(o) }},
 	}
 	one, three := secp256k1.NewScalar().One(), secp256k1.NewScalar().SetUInt64(3)
 	sops := []struct {
 		name string
-		f    func(s *secp256k1.Scalar) *secp256k1.Scalar
+		f    func(s, o *secp256k1.Scalar) *secp256k1.Scalar
 	}{
-		{"Add(1)", func(s *secp256k1.Scalar) *secp256k1.Scalar { return s.Add(one) }},
-		{"Subtract(1)", func(s *secp256k1.Scalar) *secp256k1.Scalar { return s.Subtract(one) }},
-		{"Multiply(3)", func(s *secp256k1.Scalar) *secp256k1.Scalar { return s.Multiply(three) }},
-		{"Square", func(s *secp256k1.Scalar) *secp256k1.Scalar { return s.Square() }},
-		{"Invert", func(s *secp256k1.Scalar) *secp256k1.Scalar { return s.Invert() }},
-		{"Copy", func(s *secp256k1.Scalar) *secp256k1.Scalar { return s.Copy() }},
-		{"value-copy", func(s *secp256k1.Scalar) *secp256k1.Scalar { c := *s; return &c }},
+		{"Add(1)", func(s, _ *secp256k1.Scalar) *secp256k1.Scalar { return s.Add(one) }},
+		{"Subtract(1)", func(s, _ *secp256k1.Scalar) *secp256k1.Scalar { return s.Subtract(one) }},
+		{"Multiply(3)", func(s, _ *secp256k1.Scalar) *secp256k1.Scalar { return s.Multiply(three) }},
+		{"Square", func(s, _ *secp256k1.Scalar) *secp256k1.Scalar { return s.Square() }},
+		{"Invert", func(s, _ *secp256k1.Scalar) *secp256k1.Scalar { return s.Invert() }},
+		{"Copy", func(s, _ *secp256k1.Scalar) *secp256k1.Scalar { return s.Copy() }},
+		{"value-copy", func(s, _ *secp256k1.Scalar) *secp256k1.Scalar { c := *s; return &c }},
+		{"Add(other object that met the new method)", func(s, o *secp256k1.Scalar) *secp256k1.Scalar { return s.Add(o) }},
+		{"Multiply(other object that met the new method)", func(s, o *secp256k1.Scalar) *secp256k1.Scalar { return s.Multiply(o) }},
 	}
 	seqs := func(n int) [][]int {
 		var out [][]int
@@ -361,9 +366,15 @@ func ProbeFollowUps() string {
 				if err := twin.Decode(e.Encode()); err != nil {
 					return fmt.Sprintf("after *Element.%s (variant %d) the receiver's encoding %x is rejected: %v", m.Name, v, e.Encode(), err)
 				}
+				other := secp256k1.Base().Double().Double()
+				callNew(other, m, v+1)
+				otherTwin := secp256k1.NewElement()
+				if err := otherTwin.Decode(other.Encode()); err != nil {
+					return fmt.Sprintf("after *Element.%s (variant %d) the receiver's encoding %x is rejected: %v", m.Name, v+1, other.Encode(), err)
+				}
 				hist := "*Element." + m.Name
 				for _, op := range seq {
-					e, twin = eops[op].f(e), eops[op].f(twin)
+					e, twin = eops[op].f(e, other), eops[op].f(twin, otherTwin)
 					hist += ", " + eops[op].name
 					if a, b := e.Encode(), twin.Encode(); !bytes.Equal(a, b) {
 						return fmt.Sprintf("history [%s] (receiver variant %d): the object shows %x, an object that held the same value after the first call and went through the same known operations shows %x", hist, v, a, b)
@@ -384,9 +395,15 @@ func ProbeFollowUps() string {
 				if err := twin.Decode(s.Encode()); err != nil {
 					return fmt.Sprintf("after *Scalar.%s (variant %d) the receiver's encoding %x is rejected: %v", m.Name, v, s.Encode(), err)
 				}
+				other := secp256k1.NewScalar().SetUInt64(11)
+				callNew(other, m, v+1)
+				otherTwin := secp256k1.NewScalar()
+				if err := otherTwin.Decode(other.Encode()); err != nil {
+					return fmt.Sprintf("after *Scalar.%s (variant %d) the receiver's encoding %x is rejected: %v", m.Name, v+1, other.Encode(), err)
+				}
 				hist := "*Scalar." + m.Name
 				for _, op := range seq {
-					s, twin = sops[op].f(s), sops[op].f(twin)
+					s, twin = sops[op].f(s, other), sops[op].f(twin, otherTwin)
 					hist += ", " + sops[op].name
 					if a, b := s.Encode(), twin.Encode(); !bytes.Equal(a, b) || s.Bits() != twin.Bits() {
 						return fmt.Sprintf("history [%s] (receiver variant %d): the object shows %x, an object that held the same value after the first call and went through the same known operations shows %x (or their Bits differ)", hist, v, a, b)
